@@ -246,6 +246,9 @@ class Program(Unit):
                                       'stdspec-parse', 'stdspec-chars', 'stdspec-bytelen', 'ax-bytelen', 'stdspec-contains', 'stdspec-drop'] + on_demand,
                                 [('dep_reqwest.rs', ['reqwest-error', 'reqwest-client']),
                                  ('dep_yaserde.rs', ['io-traits', 'io-write-trait-opaque', 'io-traits-end', 'xml', 'yaserde-begin', 'yaserde-traits', 'yaserde-end'])])
+        for ln in getattr(em, 'presented_or_else', []):
+            out.dropped.append(f'emitted:{os.path.basename(self.schema)}:{ln}: `X.or_else(|| E)` presented as `match X {{ Some(v) => Some(v), None => E }}` (definition of Option::or_else; '
+                               'Verus infers nothing about a closure without a postcondition)')
         self.check_helpers_verbatim(repo, em)
         efile = 'emitted:' + os.path.basename(self.schema)
         # ---- root `use` lines: keep std ones, drop crates that are stood in
